@@ -152,6 +152,15 @@ fn worker_seed(seed: u64, id: &str, sub: &str, w: usize) -> [u8; 32] {
 
 /// Run `check` over `cases` generated values, split over the worker threads.  The first failing worker's
 /// case is shrunk by proptest and returned; the other workers stop at their next case.
+/// Safety net: a panic that escapes a check (in the code under test at a call site that does not expect one, or in the
+/// harness) is reported as a failure of that case instead of killing the process.
+pub fn guarded<C, F: Fn(&C, &mut Local) -> Result<(), String>>(check: &F, c: &C, l: &mut Local) -> Result<(), String> {
+    match crate::rt::try_call(|| check(c, l)) {
+        Ok(r) => r,
+        Err(p) => Err(format!("the call under test did not return ({p})")),
+    }
+}
+
 pub fn run_sub<C, F>(
     ctx: &Ctx,
     name: &str,
@@ -202,7 +211,7 @@ where
                             if !l.frozen {
                                 l.evals += 1;
                             }
-                            match check(&c, &mut l) {
+                            match guarded(check, &c, &mut l) {
                                 Ok(()) => Ok(()),
                                 Err(m) => {
                                     l.frozen = true;
@@ -255,7 +264,7 @@ where
         if let (None, Some((c, m))) = (&out.failure, f) {
             // confirm through the plain closure (no proptest involved)
             let mut l2 = Local::default();
-            let confirmed = check(&c, &mut l2);
+            let confirmed = guarded(&check, &c, &mut l2);
             let message = match confirmed {
                 Err(m2) => m2,
                 Ok(()) => format!("(not reproduced on re-execution) {m}"),
@@ -294,7 +303,11 @@ where
                                 break;
                             }
                             l.evals += 1;
-                            if let Err((c, m)) = check(i, &mut l) {
+                            let r = match crate::rt::try_call(|| check(i, &mut l)) {
+                                Ok(r) => r,
+                                Err(p) => Err((serde_json::json!({"index": i}), format!("the call under test did not return ({p})"))),
+                            };
+                            if let Err((c, m)) = r {
                                 stop.store(true, Ordering::Relaxed);
                                 fail = Some((i, c, m));
                                 break;
@@ -373,7 +386,7 @@ where
         replay: Box::new(move |v| {
             let c: C = serde_json::from_value(v.clone()).map_err(|e| format!("bad replay case: {e}"))?;
             let mut l = Local::default();
-            check2(&c, &mut l)
+            guarded(&check2, &c, &mut l)
         }),
     }
 }
